@@ -185,7 +185,9 @@ def _add_lexical_resource(
         # if the system crashes during a write, but they should also
         # make inserts much faster
         cur.execute('PRAGMA synchronous = OFF')
-        cur.execute('PRAGMA journal_mode = MEMORY')
+        # journal_mode returns a row; left unfetched, the statement stays
+        # active and blocks later commits if an error keeps the cursor alive
+        cur.execute('PRAGMA journal_mode = MEMORY').fetchall()
 
         for lexicon in resource['lexicons']:
             spec = format_lexicon_specifier(lexicon["id"], lexicon["version"])
